@@ -39,6 +39,16 @@ class Component:
         try:
             if kind == "breaker":
                 self.obj = CircuitBreaker(failure_threshold=THRESHOLD, window_s=g(640), recovery_timeout_s=g(64), trip_on={ErrorClass.TRANSIENT})
+            elif kind == "breaker_userclock":
+                # the caller supplies its own clock object, protected by its own re-entrant lock
+                self.clock_lock = self.factory.make_lock(reentrant=True)
+                vclock = self.clock
+
+                def user_clock():
+                    with self.clock_lock:
+                        return vclock.monotonic()
+
+                self.obj = CircuitBreaker(failure_threshold=THRESHOLD, window_s=g(640), recovery_timeout_s=g(64), trip_on={ErrorClass.TRANSIENT}, clock=user_clock)
             elif kind == "breaker_ct":
                 # opens through a per-class threshold only (the global threshold is out of reach)
                 self.obj = CircuitBreaker(failure_threshold=50, window_s=g(640), recovery_timeout_s=g(64), trip_on=set(), class_thresholds={ErrorClass.TRANSIENT: THRESHOLD})
@@ -48,7 +58,7 @@ class Component:
             bootstrap.set_sched(None)
         b = self.obj
         T = ErrorClass.TRANSIENT
-        if kind in ("breaker", "breaker_ct"):
+        if kind in ("breaker", "breaker_ct", "breaker_userclock"):
             if init == "closed_near":
                 b.record_failure(T)
             elif init in ("open_early", "open_ready", "half_probe", "half_free"):
@@ -68,6 +78,10 @@ class Component:
 
     def op(self, name: str):
         b = self.obj
+        if name.startswith("locked_"):
+            # user code that holds its clock's lock while it talks to the breaker (e.g. advancing a manual clock)
+            with self.clock_lock:
+                return self.op(name[len("locked_"):])
         if name == "allow":
             d = b.allow()
             return ("allow", d.allowed, d.state.value, d.event)
@@ -90,7 +104,7 @@ class Component:
     def observe(self):
         """Observable final state through follow-up public operations (single-threaded)."""
         b = self.obj
-        if self.kind in ("breaker", "breaker_ct"):
+        if self.kind in ("breaker", "breaker_ct", "breaker_userclock"):
             out = [b.state.value]
             d1 = b.allow()
             d2 = b.allow()
@@ -318,6 +332,10 @@ def enum_two_by_one(tier: str):
         for init in inits:
             for a, b in itertools.product(ops, repeat=2):
                 yield {"kind": kind, "init": init, "program": [[a], [b]], "max_preemptions": None, "max_schedules": 60000}
+    # a user clock with its own lock: one thread holds that lock while calling the breaker, the other just calls it
+    for init in ("closed", "closed_near", "open_ready", "half_probe"):
+        for a, b in itertools.product(["allow", "fail", "succ"], ["allow", "fail", "succ", "cancel"]):
+            yield {"kind": "breaker_userclock", "init": init, "program": [["locked_" + a], [b]], "max_preemptions": 3, "max_schedules": 4000}
 
 
 @st.composite
@@ -353,7 +371,9 @@ PROP = Property(
         "same operations sequentially in every program-order-respecting order; no deadlock, no exception. (iii) Budget with a "
         "clock that advances between the threads' clock reads (steps around window_s): linearizability against one instant has no "
         "meaning there, so the oracle is the safety bound - never more than max_retries grants whose own timestamps lie in one "
-        "window - plus no exception / deadlock, under all schedules with <= 2/3 pre-emptions. Non-trivial = a "
+        "window - plus no exception / deadlock, under all schedules with <= 2/3 pre-emptions. (iv) a breaker given a user "
+        "clock that is protected by its own re-entrant lock, one thread holding that lock while it calls the breaker: no "
+        "schedule may deadlock. Non-trivial = a "
         "program for which at least one explored schedule pre-empted a thread inside a method; distinct = distinct (program, "
         "initial state, bound). evaluations counts schedules executed."
     ),
